@@ -1627,6 +1627,7 @@ AST_SHAPES = [
      + "Lp: '(';\nRp: ')';\n", ["( a b c )", "( a ( b c ) ( ) d )"], None),
     ("sexp_right_eps", "Program: Sexp;\nSexp: Name | Lp List Rp;\n@vec\nList: Sexp List | EMPTY;\nterminals\n" + T_NUMNAME
      + "Lp: '(';\nRp: ')';\n", ["( a b c )", "( )", "( a ( ) b )"], None),
+    ("regex_empty_match", "S: Num* Name;\nterminals\nNum: /\\d*/;\nName: /[a-z]+/;\n", ["12 3 x", "x"], None),
     ("vec_left_sep", "@vec\nL: L Comma Num | Num;\nterminals\nNum: /\\d+/;\nComma: ',';\n", ["1", "1, 2, 3"], None),
     ("vec_empty", "S: Name L;\n@vec\nL: L Num | Num | EMPTY;\nterminals\n" + T_NUMNAME, ["x", "x 1 2 3"], None),
     ("vec_empty_strs", "S: Ta L;\n@vec\nL: L Tb | Tb | EMPTY;\nterminals\nTa: /a/;\nTb: /b/;\n", ["a"], None),
@@ -1667,7 +1668,10 @@ def stage_ast(work, tier, seed):
     if tier == "quick":
         combos = combos[:5] + combos[7:8] + combos[9:10] + combos[11:12]
     for name, text, inputs, nones in AST_SHAPES:
-        for ci, st in enumerate(combos):
+        shape_combos = combos
+        if name == "regex_empty_match":
+            shape_combos = combos[:2] + [dict(algo="lr", lm=False), dict(algo="glr", lm=False)]
+        for ci, st in enumerate(shape_combos):
             k += 1
             st2 = dict(st)
             st2.setdefault("builder", "default")
@@ -1697,7 +1701,8 @@ def stage_ast(work, tier, seed):
             k += 1
             insts.append({"name": "a%d" % k, "shape": "corpus:" + gid, "grammar": text,
                           "settings": dict(st, builder="default"), "inputs": inputs, "nones": None,
-                          "table": None, "extra_mods": [], "combo": 0, "sentences_only": True})
+                          "table": None, "extra_mods": [], "combo": 0, "sentences_only": True,
+                          "cyclic": G.is_cyclic(g)})
     # tables are needed for the query/run module (names of enum variants): dump with the same settings
     cases = []
     for inst in insts:
@@ -1719,6 +1724,7 @@ def stage_ast(work, tier, seed):
     res = vgen.build(work, insts)
     recs = []
     c11 = []
+    c15 = []
     ngen = 0
     for inst in insts:
         r = res[inst["name"]]
@@ -1750,8 +1756,11 @@ def stage_ast(work, tier, seed):
                 want = [w for w in want if w.isdigit()]
             if inst["shape"] == "all_const":
                 want = []
-            if out == "crash":
-                continue  # the process died inside this parser (C15's concern, e.g. finding C15-F1)
+            if out in ("crash", "hang", "panic"):
+                # C15's concern (e.g. finding C15-F1); reported there
+                c15.append(dict(id=iid, what=[[out, inp[:40]]], grammar=inst["grammar"],
+                                cyclic=bool(inst.get("cyclic"))))
+                continue
             body = out
             ok = out.startswith("ok")
             if ok and inst["settings"]["algo"] == "glr":
@@ -1769,7 +1778,7 @@ def stage_ast(work, tier, seed):
     gt = {}
     for inst in insts:
         gt["%s|%s" % (inst["shape"], "/".join("%s=%s" % kv for kv in sorted(inst["settings"].items())))] = inst["grammar"]
-    return {"verdicts": [v for v in verdicts if v["bad"]], "c11": c11, "gtext": gt,
+    return {"verdicts": [v for v in verdicts if v["bad"]], "c11": c11, "c15": c15, "gtext": gt,
             "states": r["distinct"], "transitions": r["states"],
             "ncases": len(insts), "ngenerated": ngen, "ntraces": len(verdicts),
             "nshapes": len(AST_SHAPES), "ncombos": len(combos),
